@@ -994,3 +994,168 @@ Proof.
   destruct (hrun c2 post) as [ps' fin']. cbn in H. inversion H; subst p'.
   exists ps, c1, c2. auto.
 Qed.
+
+(* ------------------------------------------------------------------------------------------------ *)
+(* fine-grained executions under the readers-writer lock are linearizable: the log of completed operations, in
+   completion order, is a sequential history with exactly the logged results *)
+
+Lemma upd_same : forall ts i x, upd ts i x i = x.
+Proof. intros. unfold upd. rewrite Nat.eqb_refl. reflexivity. Qed.
+
+Lemma upd_other : forall ts i x j, j <> i -> upd ts i x j = ts j.
+Proof. intros ts i x j H. unfold upd. apply Nat.eqb_neq in H. rewrite H. reflexivity. Qed.
+
+Lemma seq_exec_snoc : forall log c c1 o out c2,
+  seq_exec c log c1 -> step c1 o = Ok (c2, out) -> seq_exec c (log ++ [(o, out)]) c2.
+Proof.
+  induction log as [|[o' out'] log IH]; intros c c1 o out c2 H S; cbn [seq_exec app] in *.
+  - subst c1. exists c2. split; [assumption | reflexivity].
+  - destruct H as (c3 & H1 & H2). exists c3. split; [assumption|]. eapply IH; eassumption.
+Qed.
+
+Lemma get_at_position : forall c r h now, get_at c (position r h (c_data c)) now = get c r h now.
+Proof. intros. unfold get_at, get. destruct (position r h (c_data c)); reflexivity. Qed.
+
+(* what the shared cache looks like while thread j holds the write guard in stage t, if cs is the last
+   linearized state *)
+Definition write_stage (cs c : cache) (t : tstate) : Prop :=
+  match t with
+  | TSetA _ _ _ _ _ => c = cs
+  | TSetB r h v m now =>
+    exists s1 d1, evict (c_size cs) (blen v) (c_limit cs) (c_data cs) = Ok (s1, d1) /\
+                  c = mkCache (c_limit cs) (c_tlimit cs) s1 d1
+  | TSetC r h v m now =>
+    exists s1 d1 s2 d2, evict (c_size cs) (blen v) (c_limit cs) (c_data cs) = Ok (s1, d1) /\
+                        remove_existing s1 r h d1 = Ok (s2, d2) /\
+                        c = mkCache (c_limit cs) (c_tlimit cs) s2 d2
+  | _ => False
+  end.
+
+Definition conc_inv (lim tl : N) (s : cache * (nat -> tstate) * list logent) : Prop :=
+  let '(c, ts, log) := s in
+  exists cs, seq_exec (empty lim tl) log cs /\
+    (((forall j, ~ holds_write (ts j)) /\ c = cs /\
+      (forall j r h now idx, ts j = TGetB r h now idx -> idx = position r h (c_data cs)))
+     \/ (exists j, (forall i, i <> j -> ts i = TIdle) /\ write_stage cs c (ts j))).
+
+Lemma write_stage_holds : forall cs c t, write_stage cs c t -> holds_write t.
+Proof. intros cs c [] H; cbn in *; auto. Qed.
+
+Lemma conc_inv_step : forall lim tl s s', conc_inv lim tl s -> cstep s s' -> conc_inv lim tl s'.
+Proof.
+  intros lim tl s s' I St. destruct St; unfold conc_inv in *; destruct I as (cs & SE & [(NW & -> & GB)|(j & Oth & WS)]).
+  - (* begin_get, nobody writes *)
+    exists cs. split; [assumption|]. left. split; [|split; [reflexivity|]].
+    + intro j. destruct (Nat.eq_dec j i) as [->|Hn]; [rewrite upd_same; cbn; auto | rewrite upd_other by assumption; apply NW].
+    + intros j r0 h0 now0 idx Hj. destruct (Nat.eq_dec j i) as [->|Hn].
+      * rewrite upd_same in Hj. discriminate.
+      * rewrite upd_other in Hj by assumption. eapply GB. eassumption.
+  - exfalso. apply (H0 j). eapply write_stage_holds. eassumption.
+  - (* get_a *)
+    exists cs. split; [assumption|]. left. split; [|split; [reflexivity|]].
+    + intro j. destruct (Nat.eq_dec j i) as [->|Hn]; [rewrite upd_same; cbn; auto | rewrite upd_other by assumption; apply NW].
+    + intros j r0 h0 now0 idx Hj. destruct (Nat.eq_dec j i) as [->|Hn].
+      * rewrite upd_same in Hj. inversion Hj; subst. reflexivity.
+      * rewrite upd_other in Hj by assumption. eapply GB. eassumption.
+  - exfalso. destruct (Nat.eq_dec i j) as [->|Hn].
+    + rewrite H in WS. exact WS.
+    + rewrite (Oth i Hn) in H. discriminate.
+  - (* get_b *)
+    pose proof (GB _ _ _ _ _ H) as ->. rewrite get_at_position in H0.
+    exists cs. split.
+    + eapply seq_exec_snoc; [eassumption|]. cbn [step]. rewrite H0. reflexivity.
+    + left. split; [|split; [reflexivity|]].
+      * intro j. destruct (Nat.eq_dec j i) as [->|Hn]; [rewrite upd_same; cbn; auto | rewrite upd_other by assumption; apply NW].
+      * intros j r0 h0 now0 idx Hj. destruct (Nat.eq_dec j i) as [->|Hn].
+        -- rewrite upd_same in Hj. discriminate.
+        -- rewrite upd_other in Hj by assumption. eapply GB. eassumption.
+  - exfalso. destruct (Nat.eq_dec i j) as [->|Hn].
+    + rewrite H in WS. exact WS.
+    + rewrite (Oth i Hn) in H. discriminate.
+  - (* begin_set from the quiescent state *)
+    exists cs. split; [assumption|]. right. exists i. split.
+    + intros k Hk. rewrite upd_other by assumption. apply H.
+    + rewrite upd_same. cbn. reflexivity.
+  - exfalso. rewrite (H j) in WS. exact WS.
+  - (* set_a *)
+    exfalso. apply (NW i). rewrite H. cbn. auto.
+  - destruct (Nat.eq_dec i j) as [->|Hn]; [|rewrite (Oth i Hn) in H; discriminate].
+    rewrite H in WS. cbn in WS. subst c.
+    exists cs. split; [assumption|]. right. exists j. split.
+    + intros k Hk. rewrite upd_other by assumption. auto.
+    + rewrite upd_same. cbn. exists s1, d1. auto.
+  - (* set_b *)
+    exfalso. apply (NW i). rewrite H. cbn. auto.
+  - destruct (Nat.eq_dec i j) as [->|Hn]; [|rewrite (Oth i Hn) in H; discriminate].
+    rewrite H in WS. cbn in WS. destruct WS as (s1 & d1 & E1 & ->). cbn [c_size c_data c_limit c_tlimit] in *.
+    exists cs. split; [assumption|]. right. exists j. split.
+    + intros k Hk. rewrite upd_other by assumption. auto.
+    + rewrite upd_same. cbn. exists s1, d1, s2, d2. auto.
+  - (* set_c *)
+    exfalso. apply (NW i). rewrite H. cbn. auto.
+  - destruct (Nat.eq_dec i j) as [->|Hn]; [|rewrite (Oth i Hn) in H; discriminate].
+    rewrite H in WS. cbn in WS. destruct WS as (s1 & d1 & s2 & d2 & E1 & E2 & ->).
+    cbn [c_size c_data c_limit c_tlimit].
+    exists (mkCache (c_limit cs) (c_tlimit cs) (s2 + blen v) (d2 ++ [mkItem r h m now v])). split.
+    + eapply seq_exec_snoc; [eassumption|]. cbn [step]. unfold set. rewrite E1, E2. reflexivity.
+    + left. split; [|split; [reflexivity|]].
+      * intro k. destruct (Nat.eq_dec k j) as [->|Hk]; [rewrite upd_same; cbn; auto|].
+        rewrite upd_other by assumption. rewrite (Oth k Hk). cbn. auto.
+      * intros k r0 h0 now0 idx Hk. destruct (Nat.eq_dec k j) as [->|Hkj].
+        -- rewrite upd_same in Hk. discriminate.
+        -- rewrite upd_other in Hk by assumption. rewrite (Oth k Hkj) in Hk. discriminate.
+Qed.
+
+Lemma conc_inv_reach : forall lim tl s, creach lim tl s -> conc_inv lim tl s.
+Proof.
+  induction 1 as [|s s' R IH St].
+  - cbn. exists (empty lim tl). split; [reflexivity|]. left. split; [intros j []|]. split; [reflexivity|].
+    intros; discriminate.
+  - eapply conc_inv_step; eassumption.
+Qed.
+
+(* linearizability: in every reachable configuration the completed operations, in completion order, form a
+   sequential history that produces exactly the logged results *)
+Theorem conc_linearizable : forall lim tl c ts log,
+  creach lim tl (c, ts, log) -> exists cs, seq_exec (empty lim tl) log cs.
+Proof.
+  intros lim tl c ts log R. apply conc_inv_reach in R. destruct R as (cs & SE & _). exists cs. assumption.
+Qed.
+
+(* ... and whenever no thread is inside a write section, the shared cache IS that sequential state *)
+Theorem conc_quiescent_state : forall lim tl c ts log,
+  creach lim tl (c, ts, log) -> (forall j, ~ holds_write (ts j)) -> seq_exec (empty lim tl) log c.
+Proof.
+  intros lim tl c ts log R NW. apply conc_inv_reach in R. destruct R as (cs & SE & [(_ & -> & _)|(j & _ & WS)]).
+  - assumption.
+  - exfalso. apply (NW j). eapply write_stage_holds. eassumption.
+Qed.
+
+(* seq_exec is `run`: the sequential history does not crash and its final state is the one reached *)
+Lemma seq_exec_run : forall log c c', seq_exec c log c' -> snd (run c (map fst log)) = Ok c'.
+Proof.
+  induction log as [|[o out] log IH]; intros c c' H; cbn [seq_exec map fst] in *.
+  - subst. reflexivity.
+  - destruct H as (c1 & S & H). rewrite run_snd_cons, S. apply IH. assumption.
+Qed.
+
+(* so every logged hit in every fine-grained execution is the most recent set for its key in the log, and fresh *)
+Theorem conc_get_latest : forall lim tl c ts log pre r h now it post,
+  creach lim tl (c, ts, log) ->
+  log = pre ++ (OGet r h now, Some (Some it)) :: post ->
+  exists pre1 v m t pre2,
+    map fst pre = pre1 ++ OSet r h v m t :: pre2 /\
+    Forall (fun o => ~ sets_key (r, h) o) pre2 /\
+    it = mkItem r h m t v /\ t <= now /\ now - t <= tl.
+Proof.
+  intros lim tl c ts log pre r h now it post R E.
+  destruct (conc_linearizable _ _ _ _ _ R) as (cs & SE). subst log.
+  (* split the sequential execution at the get *)
+  assert (exists c1, seq_exec (empty lim tl) pre c1 /\ get c1 r h now = Ok (Some it)) as (c1 & S1 & G).
+  { clear R. revert SE. generalize (empty lim tl). induction pre as [|[o out] pre IH]; intros c0 SE; cbn [app seq_exec] in SE.
+    - destruct SE as (c1 & S & _). cbn [step] in S. exists c0. split; [reflexivity|].
+      destruct (get c0 r h now) as [x|e|w]; inversion S; subst. reflexivity.
+    - destruct SE as (c1 & S & SE). destruct (IH _ SE) as (c2 & S2 & G). exists c2. split; [|assumption].
+      cbn [seq_exec]. exists c1. auto. }
+  apply seq_exec_run in S1. eapply get_latest; eassumption.
+Qed.
